@@ -5,6 +5,7 @@ import (
 	"fmt"
 	"os"
 	"path/filepath"
+	"strings"
 )
 
 // Budget bounds one check invocation.
@@ -63,7 +64,11 @@ func writeManifest() int {
 	var checks []check
 	engines := map[string][]string{}
 	var order []string
+	held := holdback()
 	for _, p := range props {
+		if _, h := held[p.ID]; h {
+			continue
+		}
 		checks = append(checks, check{
 			PropertyID: p.ID,
 			Quick:      "./check " + p.ID + " quick",
@@ -87,6 +92,11 @@ func writeManifest() int {
 	var na []map[string]string
 	claimed := map[string]bool{}
 	for _, p := range props {
+		if reason, h := held[p.ID]; h {
+			na = append(na, map[string]string{"property_id": p.ID, "reason": "not claimed yet: " + reason})
+			claimed[p.ID] = true
+			continue
+		}
 		claimed[p.ID] = true
 	}
 	for _, n := range notApplicable {
@@ -168,4 +178,24 @@ func init() {
 		}
 		notYet = append(notYet, struct{ ID, Reason string }{id, "no check registered: the simulation engine for this property has not been built/validated yet (not a claim that the technique cannot apply; see DESIGN.md section 5)"})
 	}
+}
+
+// holdback reads /verif/holdback.txt: "<Cxx> <reason>" per line. A property
+// listed there has an engine in the tree that is still being validated; it is
+// not emitted as a check (MANIFEST lists it as not claimed, with the reason).
+func holdback() map[string]string {
+	out := map[string]string{}
+	b, err := os.ReadFile(filepath.Join(verifRoot, "holdback.txt"))
+	if err != nil {
+		return out
+	}
+	for _, line := range strings.Split(string(b), "\n") {
+		line = strings.TrimSpace(line)
+		if line == "" || strings.HasPrefix(line, "#") {
+			continue
+		}
+		id, reason, _ := strings.Cut(line, " ")
+		out[id] = strings.TrimSpace(reason)
+	}
+	return out
 }
